@@ -35,6 +35,7 @@ POINTS = ('before-bind', 'idle-after-bind', 'idle-after-session', 'other-thread-
 ALARM_S = 3
 TOKEN_TIMEOUT = 120
 CASE_TIMEOUT = 300
+FORK_GRACE = 10
 
 def cases(tier):
     out = []
@@ -259,12 +260,22 @@ def history(case, path):
         rep['threads_at_fork'] = threading.active_count()
         if db.provider is not None and hasattr(getattr(db.provider, 'transaction_lock', None), 'locked'):
             rep['transaction_lock_held_at_fork'] = db.provider.transaction_lock.locked()
+        forked = threading.Event()
+        if holder_kind:
+            # a tree whose fork() waits for the other thread's transaction (an at-fork handler taking the
+            # provider lock) cannot reach this fork point: let the other thread finish, record it
+            def watchdog():
+                if not forked.wait(FORK_GRACE):
+                    rep['fork_waited_for_other_thread'] = True
+                    finish.set()
+            threading.Thread(target=watchdog, daemon=True).start()
         pid = os.fork()
         if pid == 0:
             for fd in (go_w, c2p_r, p2c_w, rep_r): os.close(fd)
             descendant(db, case, path, 'c', case['child_ops'],
                        (go_r, c2p_w if child_first else None, p2c_r if child_first else None, rep_w), case['depth'] - 1)
         for fd in (go_r, c2p_w, p2c_r, rep_w): os.close(fd)
+        forked.set()
         rep['child_pid'] = pid
         try:
             if holder_kind:                      # the other thread ends its session right after the fork
@@ -412,6 +423,7 @@ def worker(case):
     if facts['grandchild_driver_calls']: sub.count('grandchildren_that_issued_driver_calls')
     if facts['set_aside']: sub.count('histories_where_the_pid_check_set_a_connection_aside')
     if rep.get('transaction_lock_held_at_fork'): sub.count('forks_while_transaction_lock_held')
+    if rep.get('fork_waited_for_other_thread'): sub.count('forks_that_waited_for_the_other_thread')
     outcome = json.dumps([[s['actor'], s['kind'], s.get('ok'), s.get('blocked', False), s.get('rows')]
                           for s in global_order(case, rep)])
     for sig, msg in found:
@@ -447,7 +459,8 @@ def run(ctx):
     ctx.guard('child processes that really issued driver calls', ctx.counters.get('children_that_issued_driver_calls', 0), 150)
     ctx.guard('grandchild processes that really issued driver calls', ctx.counters.get('grandchildren_that_issued_driver_calls', 0), 50)
     ctx.guard('histories in which the pid check set a parent connection aside', ctx.counters.get('histories_where_the_pid_check_set_a_connection_aside', 0), 50)
-    ctx.guard('forks taken while another thread held the SQLite transaction lock', ctx.counters.get('forks_while_transaction_lock_held', 0), 4)
+    ctx.guard('forks taken while another thread held the SQLite transaction lock (or that waited for it)',
+              ctx.counters.get('forks_while_transaction_lock_held', 0) + ctx.counters.get('forks_that_waited_for_the_other_thread', 0), 4)
     ctx.guard('read sessions compared', ctx.counters.get('reads', 0), 500)
     ctx.guard('distinct outcomes', len(outcomes), 4)
     ctx.assume('a fork from inside an open db_session of the forking thread is excluded (the child would still be inside the parent\'s session)')
